@@ -145,13 +145,21 @@ class WorldScenario:
         return [(k, d, "-backend-tracked.json" in d or "spec-hashes.json" in d or (k == "sock:send" and '"close"' in d))
                 for k, d in seam_log]
 
+    def _seam_estimate(self, w):
+        """About as many seam events as a `gwf run` would have right now: the queries, three per submission
+        (command, journal open, journal write) and the final saves."""
+        try:
+            n_sub = len(w.m_plan([]))
+        except Exception:
+            n_sub = len(w.model.targets)
+        return 8 + 3 * n_sub
+
     def _draw_fault(self, w, r, cmd):
         """One fault for a `gwf <cmd>` invocation of a random history: where it lands is drawn relative to the
         number of seam events of the latest complete run."""
         import errno
 
-        n = max(3, w.last_run_seams + 2) if cmd == "run" else 8
-        k = 1 + r.randrange(n)
+        k = 1 + r.randrange(self._seam_estimate(w) if cmd == "run" else 8)
         x = r.random()
         if x < 0.35:
             return {"kill_at": [k, "before"]}
@@ -490,6 +498,7 @@ class WorldScenario:
         if cls in K3_CLASSES and res.accepted:
             name, jid, deps = res.accepted[-1]
             w.k3_lost.add(name)
+            w.orphan_ids.add(jid)
             w.probe("unknowable_job_ids")
             # back to the job gwf knew before this invocation (not to an earlier job it could not know either)
             if name in latest_before:
@@ -498,6 +507,9 @@ class WorldScenario:
                     w.latest_gen[name] = gen_before[name]
             else:
                 w.latest.pop(name, None)
+        if argv[0] == "status" and (res.accepted or res.cancel_requests):
+            w.flag("C05", "preview_touched_scheduler", f"gwf status interrupted by {cls} submitted {res.accepted} / "
+                   f"cancelled {res.cancel_requests}", interruption=cls)
         dups = sorted(a[0] for a in res.accepted if a[0] in live_before)
         if dups:
             for p in ("C02", "C05", "C08", "C09"):
